@@ -68,7 +68,7 @@ func outCell(ch <-chan *cell) outp {
 		default:
 			return "empty"
 		}
-	}, func() int { return len(ch) }}
+	}, func() int { return len(ch) }, nil}
 }
 
 // the caller's view of the cells it handed to the library (ref scripts)
@@ -113,7 +113,7 @@ func (l *cellLog) output(e int, op func(int, int) int) outp {
 			acc = op(acc, c.v)
 		}
 		return "w" + strings.Join(ps, ",") + "/f" + strconv.Itoa(acc)
-	}, func() int { return 0 }}
+	}, func() int { return 0 }, nil}
 }
 
 // parseFoldM splits mon=[slow<d>:][ref:[same:]]<base>
